@@ -183,6 +183,19 @@ impl Network {
         wallet_lock: Arc<RwLock<Wallet>>,
         config_lock: Arc<RwLock<dyn Configuration + Send + Sync>>,
     ) {
+        // the configuration comes before the peer collection in the lock order: read what the
+        // response needs from it before the peers are locked
+        let is_lite;
+        let block_fetch_url;
+        {
+            let configs = config_lock.read().await;
+            is_lite = configs.is_spv_mode();
+            block_fetch_url = if is_lite {
+                "".to_string()
+            } else {
+                configs.get_block_fetch_url()
+            };
+        }
         let mut peers = self.peer_lock.write().await;
 
         let peer = peers.index_to_peers.get_mut(&peer_index);
@@ -210,7 +223,8 @@ impl Network {
             challenge,
             self.io_interface.as_ref(),
             wallet_lock.clone(),
-            config_lock,
+            is_lite,
+            block_fetch_url,
         )
         .await
         .unwrap();
@@ -223,6 +237,18 @@ impl Network {
         blockchain_lock: Arc<RwLock<Blockchain>>,
         configs_lock: Arc<RwLock<dyn Configuration + Send + Sync>>,
     ) {
+        // the configuration comes before the peer collection in the lock order
+        let is_lite;
+        let block_fetch_url;
+        {
+            let configs = configs_lock.read().await;
+            is_lite = configs.is_spv_mode();
+            block_fetch_url = if is_lite {
+                "".to_string()
+            } else {
+                configs.get_block_fetch_url()
+            };
+        }
         let mut peers = self.peer_lock.write().await;
         let public_key;
         {
@@ -249,7 +275,8 @@ impl Network {
                     response,
                     self.io_interface.as_ref(),
                     wallet_lock.clone(),
-                    configs_lock.clone(),
+                    is_lite,
+                    block_fetch_url,
                     current_time,
                 )
                 .await;
@@ -297,6 +324,9 @@ impl Network {
 
         self.io_interface
             .send_interface_event(InterfaceEvent::PeerConnected(peer_index));
+        // the chain request reads the configuration and the blockchain, which come before the
+        // peer collection in the lock order: release the peers first
+        drop(peers);
         // start block syncing here
         self.request_blockchain_from_peer(peer_index, blockchain_lock.clone())
             .await;
